@@ -14,12 +14,19 @@ NAME = z3.Function('tensor_name', Ref, Str)
 MEMBER = z3.Function('member', Ref, I, Bo); MW = z3.Function('member_w', Ref, I, I)
 
 class TensorInfoGenerator(Spec):
-    fields = FIELDS; consts = {}
+    fields = FIELDS; consts = {}; relaxed_first = True
     constructors = {'self.TensorGraphInfo': ['tensor_id', 'subgraph_id', 'producer', 'consumers']}
     def __init__(self):
         self.callees = {'tfl_flatbuffer_utils.get_tensor_name': lambda E, p, a, kw, node: V('str', NAME(a[0].term))}
         self.invariants = {0: self.inv_tensors, 1: self.inv_producer}
     def pure_member(self, E, p, lst, x): return MEMBER(lst.term, x)
+    def relevant(self, label):
+        """hypotheses tried first per clause (sound: fewer hypotheses; the full set remains the fallback)"""
+        common = ['inv:alloc', 'inv:distinct', 'wf:', 'member:', 'ghost:', 'comp-', 'list.', 'inv:no-producer']
+        for key, own in (('record-fields', ['inv:record-fields']), ('producer-is-the-first', ['inv:producer-first', 'inv:record-fields']), ('consumers-are-ascending', ['inv:consumers', 'inv:record-fields']),
+                         ('every-reader-is-listed', ['inv:readers', 'inv:record-fields']), ('records-', []), ('frame', [])):
+            if key in label: return own + common
+        return None
     def on_yield(self, E, p):
         """ghost definition (conservative: the invariant constrains consumer_pos_w(t2, .) only for records t2 yielded EARLIER): for the record
         of the current tensor the position of reader j is the comprehension's own witness, shifted by one when the graph-output marker was put in front"""
@@ -60,22 +67,22 @@ class TensorInfoGenerator(Spec):
         S = self
         info = lambda t: items_r(h, S.y1)[t]; c = lambda t: h.load(info(t), 'consumers'); ci = lambda t: items_i(h, c(t)); m = lambda t: ln(h, c(t)); P = lambda t: h.load(info(t), 'producer')
         off = lambda t: If(MEMBER(S.outs, t), 1, 0); tr = lambda t: And(0 <= t, t < upto)
-        return [('record-fields', ctx.forall(1, lambda t: Implies(tr(t), S.record_ok(h, t)))),
-                ('producer-is-the-first-operator-that-outputs-the-tensor', ctx.forall(2, lambda t, j: Implies(And(tr(t), 0 <= j, j < S.n, Or(P(t) == -1, j < P(t))), Not(MEMBER(S.outl(j), t))))),
+        return [('record-fields', ctx.forall(1, lambda t: Implies(tr(t), S.record_ok(h, t)), 'inv:record-fields')),
+                ('producer-is-the-first-operator-that-outputs-the-tensor', ctx.forall(2, lambda t, j: Implies(And(tr(t), 0 <= j, j < S.n, Or(P(t) == -1, j < P(t))), Not(MEMBER(S.outl(j), t))), 'inv:producer-first')),
                 ('consumers-are-ascending-operator-positions-that-read-the-tensor', ctx.forall(2, lambda t, k: Implies(And(tr(t), off(t) <= k, k < m(t)),
-                        And(0 <= ci(t)[k], ci(t)[k] < S.n, MEMBER(S.inl(ci(t)[k]), t), Implies(k + 1 < m(t), ci(t)[k] < ci(t)[k + 1]))))),
-                ('every-reader-is-listed', ctx.forall(2, lambda t, j: Implies(And(tr(t), 0 <= j, j < S.n, MEMBER(S.inl(j), t)), And(off(t) <= S.cw(t, j), S.cw(t, j) < m(t), ci(t)[S.cw(t, j)] == j))))]
+                        And(0 <= ci(t)[k], ci(t)[k] < S.n, MEMBER(S.inl(ci(t)[k]), t), Implies(k + 1 < m(t), ci(t)[k] < ci(t)[k + 1]))), 'inv:consumers')),
+                ('every-reader-is-listed', ctx.forall(2, lambda t, j: Implies(And(tr(t), 0 <= j, j < S.n, MEMBER(S.inl(j), t)), And(off(t) <= S.cw(t, j), S.cw(t, j) < m(t), ci(t)[S.cw(t, j)] == j)), 'inv:readers'))]
     def alloc_state(self, ctx, p, upto):
         S = self; h = p.heap; info = lambda t: items_r(h, S.y1)[t]
         return [('records-allocated-and-fresh', ctx.forall(1, lambda t: Implies(And(0 <= t, t < upto), And(h.alloc[info(t)], Not(S.h0.alloc[info(t)]), h.alloc[h.load(info(t), 'consumers')], Not(S.h0.alloc[h.load(info(t), 'consumers')]),
-                                                                                                       info(t) != S.y0, info(t) != S.y1, h.load(info(t), 'consumers') != S.y0, h.load(info(t), 'consumers') != S.y1)))),
-                ('records-distinct', ctx.forall(2, lambda t, t2: Implies(And(0 <= t, t < t2, t2 < upto), And(info(t) != info(t2), h.load(info(t), 'consumers') != h.load(info(t2), 'consumers'), info(t) != h.load(info(t2), 'consumers'), h.load(info(t), 'consumers') != info(t2)))))]
+                                                                                                       info(t) != S.y0, info(t) != S.y1, h.load(info(t), 'consumers') != S.y0, h.load(info(t), 'consumers') != S.y1)), 'inv:alloc')),
+                ('records-distinct', ctx.forall(2, lambda t, t2: Implies(And(0 <= t, t < t2, t2 < upto), And(info(t) != info(t2), h.load(info(t), 'consumers') != h.load(info(t2), 'consumers'), info(t) != h.load(info(t2), 'consumers'), h.load(info(t), 'consumers') != info(t2))), 'inv:distinct'))]
     def inv_tensors(self, E, ctx, p, pre, t):
         S = self; h = p.heap
         return [('t-range', And(0 <= t, t <= S.NT)), ('one-record-per-tensor-so-far', And(ln(h, S.y0) == t, ln(h, S.y1) == t))] + self.record_quantified(ctx, h, t) + self.alloc_state(ctx, p, t)
     def inv_producer(self, E, ctx, p, pre, i):
         S = self; h = p.heap; t = pre.env['$i0'].term
-        return [('i-range', And(0 <= i, i <= S.n)), ('no-producer-found-yet', And(p.env['producer'].term == -1, ctx.forall(1, lambda j: Implies(And(0 <= j, j < i), Not(MEMBER(S.outl(j), t)))))),
+        return [('i-range', And(0 <= i, i <= S.n)), ('no-producer-found-yet', And(p.env['producer'].term == -1, ctx.forall(1, lambda j: Implies(And(0 <= j, j < i), Not(MEMBER(S.outl(j), t))), 'inv:no-producer'))),
                 ('one-record-per-tensor-so-far', And(ln(h, S.y0) == t, ln(h, S.y1) == t))] + self.record_quantified(ctx, h, t) + self.alloc_state(ctx, p, t) + \
                [('consumers-list-of-this-tensor-kept', And(ln(h, p.env['consumers'].term) == ln(pre.heap, pre.env['consumers'].term), items_i(h, p.env['consumers'].term) == items_i(pre.heap, pre.env['consumers'].term)))]
     def ensures(self, E, ctx, p, ret):
